@@ -193,7 +193,7 @@ impl<K: El, V: El> Mon<K, V> {
                 let mut seen: BTreeMap<u64, (u64, u64, u64)> = BTreeMap::new();
                 let mut n = 0usize;
                 loop {
-                    check_len("into_iter", it.len(), it.size_hint(), total - n)?;
+                    check_len("into_iter", safe_len(&it), it.size_hint(), total - n)?;
                     if (n as u64) >= op.n {
                         break;
                     }
@@ -552,7 +552,7 @@ impl<K: El, V: El> Mon<K, V> {
                 let mut n = 0usize;
                 let mut cloned: Option<(griddle::hash_map::Iter<'_, K, V>, usize)> = None;
                 loop {
-                    check_len("iter", it.len(), it.size_hint(), total - n)?;
+                    check_len("iter", safe_len(&it), it.size_hint(), total - n)?;
                     if n as u64 == op.n {
                         cloned = Some((it.clone(), n));
                     }
@@ -568,7 +568,7 @@ impl<K: El, V: El> Mon<K, V> {
                     if it.next().is_some() {
                         viol!("C08", "iter yielded an element after returning None");
                     }
-                    check_len("iter", it.len(), it.size_hint(), 0)?;
+                    check_len("iter", safe_len(&it), it.size_hint(), 0)?;
                 }
                 if let Some((c, at)) = cloned {
                     let dbg = format!("{:?}", c);
@@ -595,7 +595,7 @@ impl<K: El, V: El> Mon<K, V> {
                 let mut n = 0;
                 let mut ks = Vec::new();
                 loop {
-                    check_len("keys", it.len(), it.size_hint(), total - n)?;
+                    check_len("keys", safe_len(&it), it.size_hint(), total - n)?;
                     match it.next() {
                         None => break,
                         Some(kk) => {
@@ -620,7 +620,7 @@ impl<K: El, V: El> Mon<K, V> {
                 let mut n = 0;
                 let mut vs = Vec::new();
                 loop {
-                    check_len("values", it.len(), it.size_hint(), total - n)?;
+                    check_len("values", safe_len(&it), it.size_hint(), total - n)?;
                     match it.next() {
                         None => break,
                         Some(v) => {
@@ -645,7 +645,7 @@ impl<K: El, V: El> Mon<K, V> {
                 let mut it = m!(out, self.map.iter_mut());
                 let mut n = 0;
                 loop {
-                    check_len("iter_mut", it.len(), it.size_hint(), total - n)?;
+                    check_len("iter_mut", safe_len(&it), it.size_hint(), total - n)?;
                     if n == total / 2 {
                         let dbg = format!("{:?}", it);
                         match parse_debug_pairs(&dbg) {
@@ -675,7 +675,7 @@ impl<K: El, V: El> Mon<K, V> {
                 let mut n = 0;
                 let mut vs = Vec::new();
                 loop {
-                    check_len("values_mut", it.len(), it.size_hint(), total - n)?;
+                    check_len("values_mut", safe_len(&it), it.size_hint(), total - n)?;
                     match it.next() {
                         None => break,
                         Some(v) => {
@@ -720,7 +720,7 @@ impl<K: El, V: El> Mon<K, V> {
             let mut it = m!(out, self.map.drain());
             let mut n = 0usize;
             loop {
-                check_len("drain", it.len(), it.size_hint(), total - n)?;
+                check_len("drain", safe_len(&it), it.size_hint(), total - n)?;
                 if n as u64 >= op.n {
                     break;
                 }
@@ -1134,6 +1134,18 @@ pub fn reserve_may_fail(st0: &State, n: usize) -> bool {
 pub fn rethrow_fuse(p: &str) {
     if p.contains(FUSE_MSG) {
         panic!("{}", FUSE_MSG);
+    }
+}
+
+/// `ExactSizeIterator::len()` asserts that the two bounds of `size_hint()` agree and panics
+/// otherwise; ask for it only when they do, so that an inconsistent hint is reported as what
+/// it is (a C08 matter) rather than as a panic of the traversal call.
+pub fn safe_len<I: ExactSizeIterator>(it: &I) -> usize {
+    let (lo, hi) = it.size_hint();
+    if hi == Some(lo) {
+        it.len()
+    } else {
+        usize::MAX
     }
 }
 
